@@ -73,7 +73,12 @@ class Driven:
 
     def drive(self, coro, cut):
         """returns ("ok", value) | ("exc", exception)"""
-        it = coro.__await__() if not hasattr(coro, "send") else coro
+        if hasattr(coro, "send"):
+            it = coro
+        elif hasattr(coro, "__await__"):
+            it = coro.__await__()
+        else:
+            return ("exc", TypeError("the adapter returned something that cannot be awaited: %r" % type(coro).__name__))
         budget = None if cut is None else cut[0]
         try:
             tok = it.send(None)
